@@ -25,13 +25,36 @@ RULE = (
     "(the list handed to set_stride_patterns and the final snax_stream.streaming_region) the per-step ordered 8-byte words are expanded with the streamer address "
     "model. Required: same number of steps and per step the same byte sequence. Patterns the accelerator adds for ports without a schedule operand must be disabled "
     "(all bounds 0) or a copy of the pattern they mirror / a zero-pointer operand. Cases for which the conversion warns 'Non-contiguous access' are outside the domain. "
-    "Non-trivial: >= 2 temporal steps and an operand with element size < 8 bytes or a spatial fill-up/merge; distinct by recipe hash."
+    "Non-trivial: >= 2 temporal steps and an operand with element size < 8 bytes or a spatial fill-up/merge; distinct by recipe hash. "
+    "Sub xdma_streams (snax_xdma, registered in a private context the way snaxc/tools/config_parser.py does it): a dart.operation with one extension kernel - "
+    "kernel.add i32 (AddExtension), kernel.rescale i32->i8 (RescaleDownExtension), kernel.rescale i8->i32 (RescaleUpExtension) - on rank-1 and rank-2 operands "
+    "(identity maps, optionally a transposed first input), element counts that are multiples of 64, multiples of 16 only (n/16 mod 4 = 1, 2, 3) and "
+    "non-multiples of 16, layouts row-major / compiler-chosen (set-memory-layout tiled, untiled) / given per operand (strided permutations with padding, "
+    "tiled-strided, contiguous tiles at a padded pitch). The finite core (every kernel x 18 rank-1 counts x 5 layouts, a grid of 96 rank-2 shapes x 4 layouts "
+    "x plain/transposed) is enumerated in every run, the rest is sampled. Pipeline: insert-accfg-op, dart-scheduler, [set-memory-layout], "
+    "dart-layout-resolution, convert-dart-to-snax-stream, module verify. Oracle, per operand and in bytes (the i32 and the i8 side of a rescale move a "
+    "different number of elements per 64-byte hardware step): the reference stream is built exactly as for sub streams (schedule elements in template "
+    "order under the operand's own layout function); the hardware stream of the operand's pattern (8 ports x 8 bytes) must equal it step by step, one "
+    "hardware step being the concatenation of g consecutive schedule steps (documented fill-up, g = 64 / bytes per schedule step; operands of equal element "
+    "size must agree on g). Compared at the hand-over to set_stride_patterns (one pattern per schedule operand) and on the final region (reader, writer, "
+    "after StridePattern.canonicalize; reader based at the first input, writer at the output). For add the final reader serves both inputs: even hardware "
+    "steps must be the first input's stream, odd steps moved back by the distance D the pattern itself uses must be the second input's stream (i.e. under "
+    "the extension's documented assumption that the second input lies D = 512 bytes behind the first); that the region carries no pointer for the second "
+    "input is reported as a known finding on every add case. Refusals (RuntimeError texts of the conversion, NotImplementedError, bare asserts / exhausted "
+    "access iterator, scheduler without result, verifier 'exceeds streamer dimensionality') are rejections; given / row-major layouts are inside the domain "
+    "under the same rule as for sub streams; operands with a static layout offset are not compared. Non-trivial: >= 2 schedule steps and both stages compared."
 )
 ASSUMPTIONS = [
     "xDSL 0.70 compatibility shim (vlib/compat.py)",
     "streamer address model (vlib/streamer_model.py) follows the StridePattern docstring: temporal dim 0 innermost, spatial dim 0 fastest, one 8-byte word per port",
     "the accelerator template (get_template) and streamer port sizes (get_streamers) are taken as the hardware description",
     "elements are delivered to the accelerator in template order (last template dim fastest)",
+    "xdma_streams: reader and writer of snax_xdma are decoupled by the extension between them (StreamerSystemType.DmaExt), so operands of different element "
+    "size may cover a different number of schedule steps per 64-byte hardware step; the element order of each operand's whole stream is what is fixed",
+    "xdma_streams: the merged reader the add extension builds alternates between its two inputs hardware step by hardware step, first input first "
+    "(innermost bound 2 in AddExtension.set_stride_patterns, CSR value 2 = number of inputs)",
+    "xdma_streams: extensions without a kernel (maxpool, memset, transpose, add_long: supported_kernel = None) can not be selected by any operation and are "
+    "not exercised; a static layout offset is taken to live in the operand's base pointer (C10) and such operands are not compared",
 ]
 
 # ------------------------------------------------------------------------------------------------ text building
@@ -277,11 +300,31 @@ def _outside_domain(bounds, A, b, f, elsize, n_sp, rel):
         e = np.zeros((1, n), dtype=np.int64)
         e[0, j] = 1
         strides.append((int(f(e @ A.T + b)[0]) - base) if bounds[j] > 1 else 0)
-    # affine on the box?
-    pts = np.indices(tuple(bounds)).reshape(n, -1).T
-    if len(pts) <= 70000:
-        lin = base + pts @ np.array(strides, dtype=np.int64)
-        if not (f(pts @ A.T + b) == lin).all():
+    # affine on the box? A layout address is a sum of per-operand-dimension terms, so the access function is a sum of functions of the
+    # groups of schedule dimensions that meet in one operand dimension: it is affine on the box iff it is affine on every group's
+    # sub-box (all other dimensions at 0). The groups are small even when the whole box is not.
+    svec = np.array(strides, dtype=np.int64)
+    group = list(range(n))
+    for row in A:
+        js = [j for j in range(n) if row[j] != 0]
+        for j in js[1:]:
+            a_, b_ = group[js[0]], group[j]
+            if a_ != b_:
+                group = [a_ if g == b_ else g for g in group]
+    for g in sorted(set(group)):
+        js = [j for j in range(n) if group[j] == g and bounds[j] > 1]
+        if not js:
+            continue
+        sub = [bounds[j] for j in js]
+        npts = int(np.prod(sub))
+        if npts <= 200000:
+            loc = np.indices(tuple(sub)).reshape(len(js), -1).T
+        else:
+            rng = np.random.RandomState(12345)
+            loc = np.stack([rng.randint(0, bj, size=100000) for bj in sub], axis=1)
+        pts = np.zeros((len(loc), n), dtype=np.int64)
+        pts[:, js] = loc
+        if not (f(pts @ A.T + b) == base + pts @ svec).all():
             return "access function is not affine on the iteration box"
     run = None
     cur_stride = None
@@ -571,7 +614,399 @@ def recipe(draw, tier):
     return r
 
 
+# ------------------------------------------------------------------------------------------------ sub xdma_streams (snax_xdma extensions)
+#
+# snax_xdma is a reader -> extension -> writer pipe (StreamerSystemType.DmaExt): one reader and one writer streamer, each with 8 ports of
+# 8 bytes, i.e. 64 bytes per hardware step, whatever the element type. Every extension template has one spatial dimension of 16 elements,
+# so a schedule step holds 16 elements = 64 bytes of i32 or 16 bytes of i8; for the rescale kernels the two streamers therefore move a
+# different number of schedule steps per hardware step. The reference works per operand in bytes: the hardware stream of an operand must
+# be its scheduled stream, g consecutive schedule steps per hardware step (g = 64 / bytes per schedule step, the documented fill-up).
+
+_CTXX: list = []
+
+XDMA_KERNELS = ("add", "down", "up")
+XDMA_TYPES = dict(add=("i32", "i32", "i32"), down=("i32", "i8"), up=("i8", "i32"))
+
+# refusals the code words itself (RuntimeError texts) on the xdma path
+XDMA_REFUSALS = DOC_REFUSALS + ("No suitable extension found", "needs both inputs")
+
+
+def ctx_xdma():
+    """Private context: the default snax-opt context plus snax_xdma, registered the way snaxc/tools/config_parser.py does it (snax_xdma is not in
+    snax-opt's default registry)."""
+    if not _CTXX:
+        from snaxc.accelerators.snax_xdma import SNAXXDMAAccelerator
+        from vlib.ctx import fresh_ctx
+
+        c = fresh_ctx()
+        acc = SNAXXDMAAccelerator()
+        c.register_accelerator(SNAXXDMAAccelerator.name, lambda: acc)
+        _CTXX.append(c)
+    return _CTXX[0]
+
+
+def _xdma_layout(spec, shape):
+    """layout text for one operand: the specs of `_strided` / `_tsl`, plus dict(tile=t, gap=g): the last dimension cut into tiles of t contiguous
+    elements that lie t + g elements apart (rows / tiles padded to an aligned pitch), outer dimensions row-major above it."""
+    if "tile" not in spec:
+        return _strided(spec, shape)
+    t, gap = spec["tile"], spec["gap"]
+    n = shape[-1]
+    if n % t or n // t < 2:
+        return None if len(shape) == 1 else _strided(dict(perm=list(range(len(shape))), pad=[0], offset=0), shape)
+    pitch = t + gap
+    cur = (n // t) * pitch
+    outer = []
+    for d in reversed(range(len(shape) - 1)):
+        outer.insert(0, f"[{shape[d]}] -> ({cur})")
+        cur *= shape[d]
+    return "#tsl.tsl<" + ", ".join(outer + [f"[{n // t}, {t}] -> ({pitch}, 1)"]) + ">"
+
+
+def build_xdma(r):
+    """dart.operation on snax_xdma with one extension kernel: add (i32 + i32 -> i32), down (rescale i32 -> i8), up (rescale i8 -> i32); the shape the
+    frontend produces for kernels/xdma/add.py and kernels/rescale/rescale_{down,up}.py (element-wise, identity maps), plus rank 2 and a transposed
+    first input."""
+    k = r["kernel"]
+    etys = XDMA_TYPES[k]
+    shape = list(r["shape"])
+    rank = len(shape)
+    dims = ", ".join(f"d{i}" for i in range(rank))
+    ident = f"affine_map<({dims}) -> ({dims})>"
+    maps = [ident] * len(etys)
+    shapes = [shape] * len(etys)
+    if r.get("transpose_in") and rank == 2:
+        maps = [f"affine_map<({dims}) -> (d1, d0)>"] + maps[1:]
+        shapes = [[shape[1], shape[0]]] + shapes[1:]
+    tys = []
+    for i, ety in enumerate(etys):
+        l = _xdma_layout(r["given"][i % len(r["given"])], shapes[i]) if r["layout"] == "given" else None
+        tys.append(_mt(shapes[i], ety, l))
+    n_in = len(etys) - 1
+    L = ["builtin.module {"]
+    L.append("  func.func public @main(" + ", ".join(f"%arg{i} : {t}" for i, t in enumerate(tys)) + ") {")
+    L.append(f'    "dart.operation"({", ".join(f"%arg{i}" for i in range(len(tys)))}) <{{patterns = [{", ".join(maps)}], accelerator = "snax_xdma", '
+             f'operandSegmentSizes = array<i32: {n_in}, 1>}}> ({{')
+    L.append("    ^bb0(" + ", ".join(f"%s{i} : !dart.stream<{t}>" for i, t in enumerate(etys)) + "):")
+    if k == "add":
+        L.append('      %g0 = "dart.generic"(%s0, %s1) <{library_call = "snax_xdma"}> ({')
+        L.append("      ^bb1(%a : i32, %b : i32, %o : i32):")
+        L.append("        %k0 = kernel.add %a, %b : i32, i32 -> i32")
+        L.append("        dart.yield %k0 : i32")
+        L.append("      }) : (!dart.stream<i32>, !dart.stream<i32>) -> !dart.stream<i32>")
+    else:
+        ti, to = etys
+        mx, mn = (127, -128) if to == "i8" else (2147483647, -2147483648)
+        L.append('      %g0 = "dart.generic"(%s0) <{library_call = "snax_xdma"}> ({')
+        L.append(f"      ^bb1(%a : {ti}, %o : {to}):")
+        L.append(f"        %k0 = kernel.rescale %a {{input_zp = 0 : i32, output_zp = 0 : i32, multiplier = array<i32: 1140768826>, shift = array<i32: 47>, "
+                 f"max_int = {mx} : i32, min_int = {mn} : i32, double_round = true}} : ({ti}) -> {to}")
+        L.append(f"        dart.yield %k0 : {to}")
+        L.append(f"      }}) : (!dart.stream<{ti}>) -> !dart.stream<{to}>")
+    L.append(f"      dart.yield %g0 : !dart.stream<{etys[-1]}>")
+    L.append(f"    }}) : ({', '.join(tys)}) -> ()")
+    L.append("    func.return")
+    L.append("  }")
+    L.append("}")
+    return "\n".join(L)
+
+
+def _count_class(r):
+    n = 1
+    for x in r["shape"]:
+        n *= x
+    return "n%64==0" if n % 64 == 0 else ("n%16==0" if n % 16 == 0 else "n%16!=0")
+
+
+def _pat_lists(pat):
+    return ([x.data for x in pat.upper_bounds.data], [x.data for x in pat.temporal_strides.data], [x.data for x in pat.spatial_strides.data])
+
+
+def prop_xdma(r):
+    from xdsl.utils.exceptions import VerifyException
+
+    from snaxc.accelerators.snax_xdma import SNAXXDMAAccelerator
+
+    kernel = r["kernel"]
+    tag = f"{kernel}/rank{len(r['shape'])}/{r['layout']}/{_count_class(r)}"
+    text = build_xdma(r)
+    ctx = ctx_xdma()
+    try:
+        mod = parse(text, ctx)
+        mod.verify()
+    except Exception as e:
+        raise HarnessError(f"builder produced invalid IR: {e}\n{text}")
+    try:
+        with time_limit(20):
+            run_pass(mod, "insert-accfg-op", ctx=ctx, accelerator="snax_xdma")
+            run_pass(mod, "dart-scheduler", ctx=ctx)
+            if r["layout"] in ("pass_tiled", "pass_untiled"):
+                run_pass(mod, "set-memory-layout", ctx=ctx, tiled=(r["layout"] == "pass_tiled"))
+            mod.verify()
+    except PassTimeout:
+        raise Reject("scheduler did not terminate within 20 s")
+    except StopIteration:
+        raise Reject(f"scheduler found no schedule [{tag}]")
+    except (NotImplementedError, RuntimeError, AssertionError, IndexError, ValueError) as e:
+        raise Reject(f"scheduling/layout stage [{tag}]: {type(e).__name__} {str(e)[:50]}")
+    scheds = [o for o in mod.walk() if o.name == "dart.schedule"]
+    if len(scheds) != 1:
+        raise Reject("no dart.schedule produced (operation left unscheduled)")
+    sched = scheds[0]
+    acc = ctx.get_acc("snax_xdma")
+    template = acc.get_template(sched)
+    streamers = acc.get_streamers(sched)
+    hw_streamers = acc.streamer_config.data.streamers  # (reader, writer)
+    bounds = [b.value.data for b in sched.bounds.data]
+    n_sp = template.num_dims
+    if len(bounds) < n_sp:
+        raise Reject("schedule has fewer dims than the template")
+    n_ops = len(sched.operands)
+    if n_ops != len(XDMA_TYPES[kernel]):
+        raise HarnessError("operand count changed")
+    # ---- reference: per operand, per schedule step, the bytes of the scheduled elements under the operand's layout (template order)
+    expected, descs, outside_why = [], [], []
+    for i, operand in enumerate(sched.operands):
+        A, b = affine_matrix(sched.patterns.data[i].data)
+        f, elsize, desc = layout_fn(operand.type)
+        rel = [bool(x) for x in template[i].pattern.A.any(axis=0).tolist()]
+        idx = SM.sched_elem_indices(bounds, A, b, n_sp, rel)
+        shape = np.array([int(x) for x in operand.type.get_shape()])
+        if (idx < 0).any() or (idx >= shape).any():
+            raise Violation("schedule:index-outside-operand-shape", dict(operand=i, schedule=to_text(sched)[:1500]))
+        if desc.endswith(":offset"):
+            # a static layout offset is added to the operand's base pointer by the pointer lowering (convert-memref-to-arith, C10); the repository
+            # does not say whether the stream has to contain it as well, so such an operand is not compared (counted)
+            expected.append(None)
+            descs.append(("static-offset-not-modelled", elsize))
+            outside_why.append("layout with a static offset (not modelled)")
+            continue
+        if r["layout"] in ("none", "given"):
+            why = _outside_domain(bounds, A, b, f, elsize, n_sp, rel)
+            if why:
+                expected.append(None)
+                descs.append(("outside-domain", elsize))
+                outside_why.append(why)
+                continue
+        expected.append(SM.elem_bytes(f(idx), elsize))
+        descs.append((desc, elsize))
+    if all(e is None for e in expected):
+        raise Outside(outside_why[0])
+    sched_text = to_text(sched)[:2500]
+    # ---- run layout resolution and the conversion; capture what is handed to set_stride_patterns
+    captured = {}
+    orig = SNAXXDMAAccelerator.set_stride_patterns
+
+    def spy(self, op, pats):
+        captured["pats"] = list(pats)
+        captured["operands"] = list(op.operands)
+        return orig(self, op, pats)
+
+    SNAXXDMAAccelerator.set_stride_patterns = spy
+    try:
+        with warnings.catch_warnings(record=True) as wlist, time_limit(20), contextlib.redirect_stderr(io.StringIO()):
+            warnings.simplefilter("always")
+            run_pass(mod, "dart-layout-resolution", ctx=ctx)
+            run_pass(mod, "convert-dart-to-snax-stream", ctx=ctx)
+    except PassTimeout:
+        raise Reject("conversion did not terminate within 20 s")
+    except NotImplementedError as e:
+        raise Reject(f"conversion [{tag}]: NotImplementedError {str(e)[:40]}")
+    except RuntimeError as e:
+        if any(s in str(e) for s in XDMA_REFUSALS):
+            raise Reject(f"conversion [{tag}]: " + str(e)[:60])
+        raise Violation("xdma:conversion:raises:RuntimeError", dict(error=str(e)[:200], schedule=sched_text))
+    except (AssertionError, StopIteration) as e:
+        # convert_dart_to_snax_stream guards unsupported shapes with bare asserts / runs out of dims (next() on the access iterator)
+        raise Reject(f"conversion [{tag}]: {type(e).__name__} (unsupported shape)")
+    except Exception as e:
+        raise Violation(f"xdma:conversion:raises:{type(e).__name__}", dict(error=str(e)[:200], schedule=sched_text))
+    finally:
+        SNAXXDMAAccelerator.set_stride_patterns = orig
+    if any("Non-contiguous access" in str(w.message) for w in wlist):
+        raise Outside("conversion warns: non-contiguous access (documented as unsupported)")
+    try:
+        mod.verify()
+    except VerifyException as e:
+        # snax_stream.streaming_region's verifier refuses patterns with more dimensions than the streamer has
+        if "exceeds streamer dimensionality" in str(e):
+            raise Reject(f"conversion [{tag}]: verifier: " + str(e)[:60])
+        raise Violation("xdma:conversion:result-does-not-verify", dict(error=str(e)[:200], schedule=sched_text))
+    regions = [o for o in mod.walk() if o.name == "snax_stream.streaming_region"]
+    if len(regions) != 1 or "pats" not in captured:
+        raise Violation("xdma:conversion:no-streaming-region", dict(after=to_text(mod)[:2000]))
+    region = regions[0]
+    if len(captured["pats"]) != n_ops:
+        raise Violation("xdma:patterns-handed-to-set_stride_patterns:one-pattern-per-operand-expected", dict(n=len(captured["pats"]), schedule=sched_text))
+
+    found = []  # (signature, detail): every mismatch of the case; the runner raises the first one that is not a listed known finding
+    fills = {}
+    compared = set()
+
+    def check(hw, i, stage, pattern, extra_sig="", note=None, whole_sig=None):
+        res = SM.match_steps(hw, expected[i])
+        compared.add(stage)
+        if res is None:
+            fills[(stage, i)] = 1
+            return True
+        if res[0] == "fillup":
+            fills[(stage, i)] = res[1]
+            return True
+        detail = dict(kernel=kernel, operand=i, stage=stage, pattern=pattern, layout=descs[i][0], elsize=descs[i][1], schedule=sched_text,
+                      mismatch=res[0], info=res[1])
+        if note:
+            detail["note"] = note
+        found.append((whole_sig or f"xdma:{stage}{extra_sig}:{res[0]}", detail))
+        return False
+
+    # stage 1: the patterns handed to set_stride_patterns, one per schedule operand, each on that operand's streamer
+    for i, pat in enumerate(captured["pats"]):
+        if expected[i] is None:
+            continue
+        ub, ts, ss = _pat_lists(pat)
+        check(SM.hw_bytes(ub, ts, ss, list(streamers[i].spatial_dims)), i, "patterns-handed-to-set_stride_patterns", dict(ub=ub, ts=ts, ss=ss))
+
+    # stage 2: the final region: (reader, writer) of the xdma
+    final_pats = list(region.stride_patterns.data)
+    if len(final_pats) != 2 or len(region.operands) != 2:
+        raise Violation("xdma:final-region:reader-and-writer-pattern-expected", dict(region=to_text(region)[:1500]))
+    ptrs = captured["operands"]
+    cls_extra = []
+    if region.operands[0] is not ptrs[0]:
+        found.append(("xdma:final-region:reader-does-not-start-at-first-input", dict(kernel=kernel, region=to_text(region)[:1500])))
+    if region.operands[1] is not ptrs[-1]:
+        found.append(("xdma:final-region:writer-does-not-start-at-output", dict(kernel=kernel, region=to_text(region)[:1500])))
+    rub, rts, rss = _pat_lists(final_pats[0])
+    wub, wts, wss = _pat_lists(final_pats[1])
+    hw_r = SM.hw_bytes(rub, rts, rss, list(hw_streamers[0].spatial_dims))
+    hw_w = SM.hw_bytes(wub, wts, wss, list(hw_streamers[1].spatial_dims))
+    if expected[-1] is not None:
+        check(hw_w, n_ops - 1, "final-region", dict(ub=wub, ts=wts, ss=wss))
+    if kernel != "add":
+        if expected[0] is not None:
+            check(hw_r, 0, "final-region", dict(ub=rub, ts=rts, ss=rss))
+    else:
+        # AddExtension.set_stride_patterns gives the one reader both inputs: an extra innermost temporal dimension of bound 2 alternates between
+        # the first input (reader base pointer) and the second one, which is not passed to the region at all but assumed at a fixed distance
+        # behind the first ("TODO: make this 512 not hardcoded"). Reference: even hardware steps are the first input's stream; odd steps, moved
+        # back by the distance D the pattern itself uses, are the second input's stream *if* that input lies D bytes behind the first.
+        if hw_r.shape[0] % 2 or hw_r.shape[0] == 0:
+            found.append(("xdma:final-region:add-reader-does-not-alternate-between-two-inputs", dict(pattern=dict(ub=rub, ts=rts, ss=rss), schedule=sched_text)))
+        else:
+            hw_a, hw_b = hw_r[0::2], hw_r[1::2]
+            if expected[0] is not None:
+                check(hw_a, 0, "final-region", dict(ub=rub, ts=rts, ss=rss))
+            dist = int(hw_b[0, 0] - hw_a[0, 0])
+            # the region has no pointer for the second input: where it is read depends on a placement the compiler neither enforces nor checks
+            found.append(("xdma:final-region:add-second-input-has-no-pointer:read-at-fixed-distance-behind-first-input",
+                          dict(assumed_distance_bytes=dist, pattern=dict(ub=rub, ts=rts, ss=rss), region=to_text(region)[:600])))
+            cls_extra.append(f"add:assumed-distance:{dist}")
+            if expected[1] is not None:
+                # the extension builds the reader pattern from the first input's pattern only; a second input that was handed over with a
+                # pattern of its own (another layout) is then streamed with the first input's strides: one root cause, one signature
+                same = captured["pats"][0].canonicalize() == captured["pats"][1].canonicalize()
+                ok = check(hw_b - dist, 1, "final-region", dict(ub=rub, ts=rts, ss=rss), extra_sig=":add-second-input",
+                           whole_sig=None if same else "xdma:final-region:add-second-input-streamed-with-first-input-pattern",
+                           note=f"second input compared relative to first input + {dist} bytes; handed-over pattern of the second input: "
+                                f"{_pat_lists(captured['pats'][1])}")
+                cls_extra.append("add:second-input:" + ("same-pattern-as-first" if same else "own-pattern") + (":matches" if ok else ":differs"))
+    # operands of equal element size must use one fill-up factor (they advance in lockstep); across element sizes the factor follows the bytes
+    for stage in compared:
+        by_size = {}
+        for (s, i), g in fills.items():
+            if s == stage:
+                by_size.setdefault(descs[i][1], set()).add(g)
+        if any(len(gs) > 1 for gs in by_size.values()):
+            found.append((f"xdma:{stage}:operands-of-one-element-size-use-different-fill-up-factors",
+                          dict(factors={str(k_): sorted(v) for k_, v in by_size.items()}, schedule=sched_text)))
+    nsteps = next(e for e in expected if e is not None).shape[0]
+    n_cmp = sum(1 for e in expected if e is not None)
+    cls = ["kernel:" + kernel, "rank:%d" % len(r["shape"]), "layout:" + r["layout"], "count:" + _count_class(r), "steps:" + ("1" if nsteps == 1 else "2+"),
+           "tdims:%d" % (len(bounds) - n_sp), f"cmp:{kernel}/rank{len(r['shape'])}/{_count_class(r)}", f"cmp:{kernel}/{r['layout']}",
+           "operands-compared:%d/%d" % (n_cmp, n_ops)]
+    if r.get("transpose_in") and len(r["shape"]) == 2:
+        cls.append("transposed-input")
+    cls += sorted({"ref:" + d for d, _ in descs})
+    cls += sorted({"fill:elsize%d:x%d" % (descs[i][1], g) for (s, i), g in fills.items()})
+    cls += cls_extra
+    return Info(nontrivial=bool(nsteps >= 2 and "final-region" in compared), classes=tuple(cls), evals=2 * n_cmp, known=found)
+
+
+@st.composite
+def recipe_xdma(draw, tier):
+    big = tier == "thorough"
+    kernel = draw(st.sampled_from(XDMA_KERNELS))
+    layout = draw(st.sampled_from(["none", "none", "pass_tiled", "pass_untiled", "given", "given"]))
+    rank = draw(st.sampled_from([1, 2]))
+    mult64 = [64, 128, 192, 256, 320, 512] + ([1024, 2048, 4096] if big else [])
+    mult16 = [16, 32, 48, 80, 96, 160, 224]  # n/16 % 4 in 1, 2, 3
+    other = [8, 24, 40, 4, 100]
+    if rank == 1:
+        shape = [draw(st.sampled_from(mult64 * 4 + mult16 * 3 + other))]
+    else:
+        a = draw(st.sampled_from([16, 16, 32, 64, 64, 128, 8, 4, 48] + ([256] if big else [])))
+        # 20 / 24: too large and not a multiple of 16, so the scheduler has to unroll the other dimension
+        b = draw(st.sampled_from([1, 2, 3, 4, 4, 5, 6, 8, 8, 12, 16, 20, 24]))
+        shape = [a, b] if draw(st.integers(0, 2)) != 0 else [b, a]
+        if layout == "none" and draw(st.integers(0, 2)) != 0:
+            # row-major: only an operation whose dimension 0 can not be unrolled (too large, not a multiple of 16) streams along the rows
+            shape = [draw(st.sampled_from([20, 24, 40, 17])), draw(st.sampled_from([16, 32, 64, 64, 128]))]
+    r = dict(kernel=kernel, layout=layout, shape=shape, transpose_in=bool(rank == 2 and draw(st.integers(0, 3)) == 0))
+    given = []
+    for _ in range(3):
+        if draw(st.integers(0, 2)) == 0:
+            # contiguous tiles at a padded pitch (gap in elements; 8 i8 elements = one bank word)
+            given.append(dict(tile=draw(st.sampled_from([16, 16, 16, 32, 64])), gap=draw(st.sampled_from([16, 16, 8, 48, 112]))))
+        else:
+            g = draw(_given(rank, 1, 16))
+            if "offset" in g and draw(st.integers(0, 3)) != 0:
+                g["offset"] = 0  # operands with a static offset are not compared: keep them rare
+            given.append(g)
+    if draw(st.integers(0, 3)) != 0:
+        # the usual case: all operands of the element-wise operation laid out alike
+        given = [dict(given[0]) for _ in range(3)]
+    if rank == 2 and draw(st.integers(0, 3)) != 0:
+        # the scheduler unrolls dimension 0 spatially whenever its size allows: make that dimension the contiguous one
+        for i, g in enumerate(given):
+            if "tile" not in g:
+                g = dict(g)
+                g["perm"] = [0, 1] if (i == 0 and r["transpose_in"]) else [1, 0]
+                given[i] = g
+    r["given"] = given
+    return r
+
+
+XDMA_R1_SIZES = (4, 8, 16, 24, 32, 40, 48, 64, 80, 96, 100, 128, 160, 192, 224, 256, 320, 512)
+
+
+def exhaustive_xdma(tier):
+    """The finite core of the space, enumerated in every run: every kernel x every rank-1 element count (multiples of 64, of 16 only with every
+    residue of n/16 mod 4, and non-multiples of 16) x {row-major, both compiler-chosen layouts, tiles of 16 at a padded pitch}, and a grid of rank-2
+    shapes x {compiler-chosen layouts, dimension 0 contiguous, row-major} x {plain, transposed first input}."""
+    for kernel in XDMA_KERNELS:
+        for n in XDMA_R1_SIZES:
+            for layout in ("none", "pass_tiled", "pass_untiled"):
+                yield dict(kernel=kernel, layout=layout, shape=[n], transpose_in=False, given=[dict(perm=[0], pad=[0], offset=0)])
+            for gap in (16, 48):
+                yield dict(kernel=kernel, layout="given", shape=[n], transpose_in=False, given=[dict(tile=16, gap=gap)])
+        for a in (4, 8, 16, 32, 64, 128):
+            for b in (1, 2, 3, 4, 6, 8, 16, 20):
+                for shape in ([a, b], [b, a]):
+                    for tr in (False, True):
+                        for layout in ("pass_tiled", "pass_untiled"):
+                            yield dict(kernel=kernel, layout=layout, shape=shape, transpose_in=tr, given=[dict(perm=[0, 1], pad=[0, 0], offset=0)])
+                        for perm in ([1, 0], [0, 1]):
+                            if perm == [0, 1] and shape[0] not in (1, 20):
+                                continue  # row-major while dimension 0 is the unrolled one: outside the domain, nothing to compare
+                            first =dict(perm=([0, 1] if perm == [1, 0] else [1, 0]) if tr else perm, pad=[0, 0], offset=0)
+                            other = dict(perm=perm, pad=[0, 0], offset=0)
+                            yield dict(kernel=kernel, layout="given", shape=shape, transpose_in=tr, given=[first, other, other])
+
+
 SUBS = [
     Sub("streams", lambda tier: recipe(tier), prop, budget=dict(quick=3000, thorough=30000), floor=dict(quick=150, thorough=1500),
         nontrivial_rule=">= 2 temporal steps and an operand with element size < 8 bytes or a non-default layout"),
+    Sub("xdma_streams", lambda tier: recipe_xdma(tier), prop_xdma, budget=dict(quick=2400, thorough=24000), exhaustive=exhaustive_xdma,
+        floor=dict(quick=300, thorough=1200),  # unchanged tree: 940..990 quick (seeds 1, 2, 3, 7, 11), 3885 thorough (seed 1)
+        nontrivial_rule=">= 2 schedule steps and both stages (hand-over to set_stride_patterns, final streaming region) compared for at least one operand"),
 ]
